@@ -36,8 +36,8 @@ func init() {
 			ruleCHParseSites3(r)
 			ruleDropKeepMatchers(r)
 			ruleNoInPlaceValueMutation(r, []string{enginePkg, metricPkg}, 2)
-			ruleNoStdUnquote(r)        // a template written as a raw string keeps its carriage returns
-			ruleSetErrorFirstWins(r)   // a failing template is flagged with __error__ unless an error is already recorded
+			ruleNoStdUnquote(r)      // a template written as a raw string keeps its carriage returns
+			ruleSetErrorFirstWins(r) // a failing template is flagged with __error__ unless an error is already recorded
 		},
 	})
 }
